@@ -7,8 +7,12 @@
   depth, with MLST/MLSD and through the LIST fallback alike.  A tree is observed through `Fs.lookup`; "the
   tree became X" is stated as equality of `lookup` at every path.
 
-  What is *not* true of the pinned code is proved false on concrete witnesses (`upload_spec_false_*`, F5) and
-  replaced by the strongest statement that holds (`upload_spec_of_relative`, `upload_spec_partial_*`).
+  Upload: `upload_spec_file` and `upload_spec_dir` together are the full-strength statement — every destination
+  shape ('' / one component / several / absolute), `write_into` on and off, every working directory.  On the
+  pinned tree the directory half was FALSE for most destinations (finding F5: the per-child `relative` forgot
+  the destination's parents); it is repaired in /repo (bcdced1), the model reads the assignment off the
+  source (`Generated.uploadRelative`), and `old_relative_*` keep the negative witnesses as statements about the
+  old expressions.
 -/
 import AioftpModel.Lemmas.ClientSpec
 import AioftpModel.Lemmas.ClientFuel
@@ -35,10 +39,10 @@ def UploadSpec (l : Local) (r : Remote) (source dest : PPath) (wi : Bool) : Prop
 
 /-! ### upload -/
 
-/-- **upload_spec_partial (files, every destination).**  Uploading a local *file* puts exactly that file at
+/-- **upload_spec_file (files, every destination).**  Uploading a local *file* puts exactly that file at
     the documented destination, creates the missing directories above it and changes nothing else —
     for every destination shape, `write_into` on or off, every working directory, both server kinds. -/
-theorem upload_spec_partial_file (l : Local) (r r' : Remote) (source dest : PPath) (wi : Bool)
+theorem upload_spec_file (l : Local) (r r' : Remote) (source dest : PPath) (wi : Bool)
     (hr : ROK r) (hl : PC l.fs) (hfile : l.isFile source = true) (hdest : SafeP (placed source dest wi))
     (h : upload l r source dest wi = .ok r') :
     ∃ S, l.node source = some S ∧
@@ -61,7 +65,8 @@ theorem upload_spec_partial_file (l : Local) (r r' : Remote) (source dest : PPat
 
 /-- **upload_spec_of_relative (directories).**  For a directory source the remote tree becomes the graft at
     the documented destination *whenever the `relative` path computed for each child resolves below that
-    destination* (`RelGood`).  Finding F5 is precisely that `RelGood` fails for most destinations. -/
+    destination* (`RelGood`).  Finding F5 was precisely that `RelGood` failed for most destinations; with the
+    repaired assignment it holds for all of them (`relGood`). -/
 theorem upload_spec_of_relative (l : Local) (r r' : Remote) (source dest : PPath) (wi : Bool) (S : Path)
     (hr : ROK r) (hlpc : PC l.fs) (hlsafe : SafeV l.fs) (hnode : l.node source = some S)
     (hdir : lookup l.fs S = some .dir) (hdest : SafeP (placed source dest wi))
@@ -129,34 +134,21 @@ theorem upload_spec_of_relative (l : Local) (r r' : Remote) (source dest : PPath
         rw [hdir] at hl; cases hl
     · rw [if_neg hpre, if_neg hpre, hlk1]
 
-/-- **upload_spec_partial (directories, `write_into=True`, destination `""` or one relative component).** -/
-theorem upload_spec_partial_dir_write_into (l : Local) (r r' : Remote) (source dest : PPath) (S : Path)
+/-- **upload_spec_dir (directories, every destination).**  Uploading a local directory tree makes the remote
+    tree the graft of that tree at the documented destination — `dest/<source name>` by default, `dest` with
+    `write_into` — with identical structure and contents (empty directories and empty files included), missing
+    parents created and nothing else changed: for every tree, every destination shape, every working directory
+    on either side, both server kinds.  (`hcompat`: where the local tree has a directory the server has no
+    file — otherwise MKD fails and `upload` raises instead of returning.) -/
+theorem upload_spec_dir (l : Local) (r r' : Remote) (source dest : PPath) (wi : Bool) (S : Path)
     (hr : ROK r) (hlpc : PC l.fs) (hlsafe : SafeV l.fs) (hnode : l.node source = some S)
-    (hdir : lookup l.fs S = some .dir) (hdest : SafeP dest) (hroot : dest.root = 0)
-    (hlen : dest.parts.length ≤ 1)
-    (hcompat : ∀ rp, lookup l.fs (S ++ rp) = some .dir → ∀ d, lookup r.fs (landing r.cwd dest ++ rp) ≠ some (.file d))
-    (h : upload l r source dest true = .ok r') :
-    ∀ q, lookup r'.fs q = graft r.fs (landing r.cwd dest) l.fs S q :=
-  upload_spec_of_relative l r r' source dest true S hr hlpc hlsafe hnode hdir hdest
-    (relGood_write_into l source dest S r.cwd hdest hroot hlen) hcompat h
-
-/-- **upload_spec_partial (directories, no `write_into`, destination `""`).** -/
-theorem upload_spec_partial_dir_default (l : Local) (r r' : Remote) (source : PPath) (S : Path)
-    (hr : ROK r) (hlpc : PC l.fs) (hlsafe : SafeV l.fs) (hnode : l.node source = some S)
-    (hdir : lookup l.fs S = some .dir) (hsrc : SafeP source) (hparts : source.parts ≠ [])
+    (hdir : lookup l.fs S = some .dir) (hdest : SafeP (placed source dest wi))
     (hcompat : ∀ rp, lookup l.fs (S ++ rp) = some .dir →
-      ∀ d, lookup r.fs (landing r.cwd (placed source ⟨0, []⟩ false) ++ rp) ≠ some (.file d))
-    (h : upload l r source ⟨0, []⟩ false = .ok r') :
-    ∀ q, lookup r'.fs q = graft r.fs (landing r.cwd (placed source ⟨0, []⟩ false)) l.fs S q := by
-  have hns : SafeName source.name := by
-    apply hsrc.2; rw [parts_eq_dropLast_name source hparts]; simp
-  have hdest : SafeP (placed source ⟨0, []⟩ false) := by
-    unfold placed
-    simp only [Bool.false_eq_true, ↓reduceIte]
-    rw [parse_name _ hns]
-    exact ⟨by simp [PPath.join], by simpa [PPath.join] using hns⟩
-  exact upload_spec_of_relative l r r' source ⟨0, []⟩ false S hr hlpc hlsafe hnode hdir hdest
-    (relGood_default l source S r.cwd hsrc hparts) hcompat h
+      ∀ d, lookup r.fs (landing r.cwd (placed source dest wi) ++ rp) ≠ some (.file d))
+    (h : upload l r source dest wi = .ok r') :
+    ∀ q, lookup r'.fs q = graft r.fs (landing r.cwd (placed source dest wi)) l.fs S q :=
+  upload_spec_of_relative l r r' source dest wi S hr hlpc hlsafe hnode hdir hdest
+    (relGood l source (placed source dest wi) wi S r.cwd hdest) hcompat h
 
 /-- **upload_total** (adequacy of the loop bound): with `fuel = |local tree| + 1` the `sources` loop never stops
     for lack of fuel — each local directory is dequeued at most once. -/
@@ -192,13 +184,13 @@ theorem exists_of_isOk {α : Type} {x : M α} (h : isOk x = true) : ∃ a, x = .
   | ok a => exact ⟨a, rfl⟩
   | error e => cases h
 
-/-- non-vacuity of `upload_spec_partial_file`: a file, a two-component destination, no `write_into`, cwd `/w`,
+/-- non-vacuity of `upload_spec_file`: a file, a two-component destination, no `write_into`, cwd `/w`,
     LIST fallback — all hypotheses hold and the file arrives at `/w/d1/d2/a` -/
 example : ∃ r', upload wLocal exRemote ⟨1, [n "s", n "a"]⟩ ⟨0, [n "d1", n "d2"]⟩ false = .ok r' ∧
     lookup r'.fs [n "w", n "d1", n "d2", n "a"] = some (.file [65]) ∧ lookup r'.fs [n "w", n "d1"] = some .dir := by
   obtain ⟨r', hr'⟩ := exists_of_isOk (x := upload wLocal exRemote ⟨1, [n "s", n "a"]⟩ ⟨0, [n "d1", n "d2"]⟩ false)
     (by decide)
-  obtain ⟨S, hS, hq⟩ := upload_spec_partial_file wLocal exRemote r' _ _ false exRemote_ok wLocal_ok.1 (by decide)
+  obtain ⟨S, hS, hq⟩ := upload_spec_file wLocal exRemote r' _ _ false exRemote_ok wLocal_ok.1 (by decide)
     (safeP_of_check (by decide)) hr'
   have hS' : S = [n "s", n "a"] := by
     have : wLocal.node ⟨1, [n "s", n "a"]⟩ = some [n "s", n "a"] := by decide
@@ -208,71 +200,66 @@ example : ∃ r', upload wLocal exRemote ⟨1, [n "s", n "a"]⟩ ⟨0, [n "d1", 
   · rw [hq]; decide
   · rw [hq]; decide
 
-/-- non-vacuity of `upload_spec_partial_dir_write_into`: directory `/s` to `d` with `write_into`, cwd `/w` -/
-example : ∃ r', upload wLocal exRemote ⟨1, [n "s"]⟩ ⟨0, [n "d"]⟩ true = .ok r' ∧
-    lookup r'.fs [n "w", n "d", n "a"] = some (.file [65]) := by
-  obtain ⟨r', hr'⟩ := exists_of_isOk (x := upload wLocal exRemote ⟨1, [n "s"]⟩ ⟨0, [n "d"]⟩ true) (by decide)
-  have hq := upload_spec_partial_dir_write_into wLocal exRemote r' ⟨1, [n "s"]⟩ ⟨0, [n "d"]⟩ [n "s"] exRemote_ok
-    wLocal_ok.1 wLocal_ok.2 (by decide) (by decide) (safeP_of_check (by decide)) rfl (by decide)
+/-- non-vacuity of `upload_spec_dir`, and the two shapes finding F5 broke: directory `/s` to `d1/d2` with
+    `write_into`, cwd `/w`: the child arrives at `/w/d1/d2/a` -/
+example : ∃ r', upload wLocal exRemote ⟨1, [n "s"]⟩ ⟨0, [n "d1", n "d2"]⟩ true = .ok r' ∧
+    lookup r'.fs [n "w", n "d1", n "d2", n "a"] = some (.file [65]) ∧ lookup r'.fs [n "w", n "d2"] = none := by
+  obtain ⟨r', hr'⟩ := exists_of_isOk (x := upload wLocal exRemote ⟨1, [n "s"]⟩ ⟨0, [n "d1", n "d2"]⟩ true) (by decide)
+  have hq := upload_spec_dir wLocal exRemote r' ⟨1, [n "s"]⟩ ⟨0, [n "d1", n "d2"]⟩ true [n "s"] exRemote_ok
+    wLocal_ok.1 wLocal_ok.2 (by decide) (by decide) (safeP_of_check (by decide))
     (by
       intro rp _ d hd
-      have hfresh : lookup exRemote.fs (landing exRemote.cwd ⟨0, [n "d"]⟩) = none := by decide
-      rw [exRemote_ok.pc.none_below hfresh (List.prefix_append _ _)] at hd
-      cases hd)
-    hr'
-  exact ⟨r', hr', by rw [hq]; decide⟩
-
-/-- non-vacuity of `upload_spec_partial_dir_default`: directory `/s` with the default destination, cwd `/w` -/
-example : ∃ r', upload wLocal exRemote ⟨1, [n "s"]⟩ ⟨0, []⟩ false = .ok r' ∧
-    lookup r'.fs [n "w", n "s", n "a"] = some (.file [65]) := by
-  obtain ⟨r', hr'⟩ := exists_of_isOk (x := upload wLocal exRemote ⟨1, [n "s"]⟩ ⟨0, []⟩ false) (by decide)
-  have hq := upload_spec_partial_dir_default wLocal exRemote r' ⟨1, [n "s"]⟩ [n "s"] exRemote_ok
-    wLocal_ok.1 wLocal_ok.2 (by decide) (by decide) (safeP_of_check (by decide)) (by decide)
-    (by
-      intro rp _ d hd
-      have hfresh : lookup exRemote.fs (landing exRemote.cwd (placed ⟨1, [n "s"]⟩ ⟨0, []⟩ false)) = none := by
+      have hfresh : lookup exRemote.fs [n "w", n "d1"] = none := by decide
+      have hl : landing exRemote.cwd (placed ⟨1, [n "s"]⟩ ⟨0, [n "d1", n "d2"]⟩ true) = [n "w", n "d1", n "d2"] := by
         decide
-      rw [exRemote_ok.pc.none_below hfresh (List.prefix_append _ _)] at hd
+      have hpre : [n "w", n "d1"] <+: landing exRemote.cwd (placed ⟨1, [n "s"]⟩ ⟨0, [n "d1", n "d2"]⟩ true) ++ rp := by
+        rw [hl]; exact ⟨[n "d2"] ++ rp, by simp⟩
+      rw [exRemote_ok.pc.none_below hfresh hpre] at hd
       cases hd)
     hr'
-  exact ⟨r', hr', by rw [hq]; decide⟩
+  exact ⟨r', hr', by rw [hq]; decide, by rw [hq]; decide⟩
 
-/-- **negative witness 1**: `upload("/s", "d1/d2", write_into=True)` puts `a` at `/d2/a`, not `/d1/d2/a`. -/
-theorem upload_spec_false_write_into_nested :
-    ¬ UploadSpec wLocal wRemote ⟨1, [n "s"]⟩ ⟨0, [n "d1", n "d2"]⟩ true := by
-  intro hspec
-  have hup : upload wLocal wRemote ⟨1, [n "s"]⟩ ⟨0, [n "d1", n "d2"]⟩ true =
-      .ok { fs := [([n "d1"], .dir), ([n "d1", n "d2"], .dir), ([n "d2"], .dir), ([n "d2", n "a"], .file [65])],
-            cwd := ⟨1, []⟩, mlsx := true } := by decide
-  have := hspec _ [n "s"] hup (by decide) [n "d1", n "d2", n "a"]
-  revert this
-  decide
+/-- … and directory `/s` to `x` without `write_into`: the child arrives at `/w/x/s/a` -/
+example : ∃ r', upload wLocal exRemote ⟨1, [n "s"]⟩ ⟨0, [n "x"]⟩ false = .ok r' ∧
+    lookup r'.fs [n "w", n "x", n "s", n "a"] = some (.file [65]) ∧ lookup r'.fs [n "w", n "s"] = none := by
+  obtain ⟨r', hr'⟩ := exists_of_isOk (x := upload wLocal exRemote ⟨1, [n "s"]⟩ ⟨0, [n "x"]⟩ false) (by decide)
+  have hq := upload_spec_dir wLocal exRemote r' ⟨1, [n "s"]⟩ ⟨0, [n "x"]⟩ false [n "s"] exRemote_ok
+    wLocal_ok.1 wLocal_ok.2 (by decide) (by decide) (safeP_of_check (by decide))
+    (by
+      intro rp _ d hd
+      have hfresh : lookup exRemote.fs [n "w", n "x"] = none := by decide
+      have hl : landing exRemote.cwd (placed ⟨1, [n "s"]⟩ ⟨0, [n "x"]⟩ false) = [n "w", n "x", n "s"] := by decide
+      have hpre : [n "w", n "x"] <+: landing exRemote.cwd (placed ⟨1, [n "s"]⟩ ⟨0, [n "x"]⟩ false) ++ rp := by
+        rw [hl]; exact ⟨[n "s"] ++ rp, by simp⟩
+      rw [exRemote_ok.pc.none_below hfresh hpre] at hd
+      cases hd)
+    hr'
+  exact ⟨r', hr', by rw [hq]; decide, by rw [hq]; decide⟩
 
-/-- **negative witness 2**: `upload("/s", "x")` (no `write_into`) puts `a` at `/s/a`, not `/x/s/a`. -/
-theorem upload_spec_false_default_nonempty_dest :
-    ¬ UploadSpec wLocal wRemote ⟨1, [n "s"]⟩ ⟨0, [n "x"]⟩ false := by
-  intro hspec
-  have hup : upload wLocal wRemote ⟨1, [n "s"]⟩ ⟨0, [n "x"]⟩ false =
-      .ok { fs := [([n "x"], .dir), ([n "x", n "s"], .dir), ([n "s"], .dir), ([n "s", n "a"], .file [65])],
-            cwd := ⟨1, []⟩, mlsx := true } := by decide
-  have := hspec _ [n "s"] hup (by decide) [n "x", n "s", n "a"]
-  revert this
-  decide
+/-- the assignment the proofs rest on, as the translator found it -/
+theorem generated_relative : Generated.uploadRelative = [("", "destination / path.relative_to(source)")] := by decide
 
-/-- the hypothesis of `upload_spec_of_relative` is what fails there -/
-theorem relGood_false_write_into_nested :
-    ¬ RelGood ⟨wLocal, ⟨1, [n "s"]⟩, ⟨0, [n "d1", n "d2"]⟩, true, [n "s"], [n "d1", n "d2"], ⟨1, []⟩⟩ := by
-  intro h
-  obtain ⟨rel', h1, _, h3⟩ := h [n "a"] (by decide) (by
-    intro x hx; simp at hx; subst hx; exact safeNameB_sound (by decide))
-  have : rel' = ⟨0, [n "d2", n "a"]⟩ := by
-    have h1' : relativeOf ⟨1, [n "s"]⟩ ⟨0, [n "d1", n "d2"]⟩ (ext ⟨1, [n "s"]⟩ [n "a"]) true =
-        .ok ⟨0, [n "d2", n "a"]⟩ := by decide
-    rw [h1'] at h1
-    injection h1 with h1; exact h1.symm
-  subst this
-  revert h3
-  decide
+/-- **old_relative_write_into** (what finding F5 was, 1): with `write_into` the pinned tree computed
+    `destination.name / …`: for `upload("/s", "d1/d2", write_into=True)` the child `a` is sent to `d2/a`, i.e.
+    lands at `/d2/a` instead of `/d1/d2/a`. -/
+theorem old_relative_write_into :
+    relativeOfWith oldUploadRelative ⟨1, [n "s"]⟩ ⟨0, [n "d1", n "d2"]⟩ (ext ⟨1, [n "s"]⟩ [n "a"]) true
+      = .ok ⟨0, [n "d2", n "a"]⟩ ∧
+    landing ⟨1, []⟩ ⟨0, [n "d2", n "a"]⟩ ≠ landing ⟨1, []⟩ ⟨0, [n "d1", n "d2"]⟩ ++ [n "a"] := by decide
+
+/-- **old_relative_default** (F5, 2): without `write_into` it computed `path.relative_to(source.parent)`: for
+    `upload("/s", "x")` the child is sent to `s/a` and lands at `/s/a` instead of `/x/s/a`. -/
+theorem old_relative_default :
+    relativeOfWith oldUploadRelative ⟨1, [n "s"]⟩ (placed ⟨1, [n "s"]⟩ ⟨0, [n "x"]⟩ false) (ext ⟨1, [n "s"]⟩ [n "a"]) false
+      = .ok ⟨0, [n "s", n "a"]⟩ ∧
+    landing ⟨1, []⟩ ⟨0, [n "s", n "a"]⟩ ≠ landing ⟨1, []⟩ (placed ⟨1, [n "s"]⟩ ⟨0, [n "x"]⟩ false) ++ [n "a"] := by decide
+
+/-- the old expressions agree with the repaired one exactly on the shapes the test-suite uses -/
+theorem old_relative_agrees_on_tested_shapes (source path : PPath) (d : Str) (hd : SafeName d) :
+    relativeOfWith oldUploadRelative source ⟨0, [d]⟩ path true = relativeOf source ⟨0, [d]⟩ path true := by
+  rw [relativeOf_eq]
+  cases h : path.relativeTo? source <;>
+    simp [relativeOfWith, oldUploadRelative, guardHolds, evalRel, PPath.name, parse_name d hd, h]
 
 /-! ### download -/
 
